@@ -89,6 +89,32 @@ pub fn c01(a: &Args) {
         out.query("counts", "", &d.nodes.iter().map(|n| n.count.to_string()).collect::<Vec<_>>().join(" "));
         out.sample(format!("{} | n={} | {} -> count {}", file.origin, file.n, file.lines.join(" / "), got));
     });
+    // counts beyond u64 / u128: the same d4 texts loaded with 70, 130 and 200 features (the unmentioned ones are free)
+    {
+        let mut picked: Vec<(GenFile, TT)> = Vec::new();
+        let mut r5 = rng.fork();
+        let cfg5 = space_cfg(a, false);
+        let mut seen = 0usize;
+        for_each_model(&cfg5, &mut r5, |file, tt| { seen += 1; if picked.len() < (if a.thorough() { 60 } else { 12 }) && matches!(file.fmt, Fmt::D4) && seen % 13 == 5 { picked.push((file.clone(), tt.clone())); } });
+        for (file, tt) in picked {
+            for big in [70u32, 130, 200] {
+                let lines = file.lines.clone();
+                let Ok(mut d) = guarded(move || ddnnife::parser::distribute_building(lines, Some(big), None)) else { out.fail("load-panic", &file.text(), &format!("-t {big}"), "panic", "a model"); continue };
+                out.eval(Some(format!("{}|-t {big}", file.text())));
+                out.count("big_count_models", 1);
+                let scale = BigInt::from(1) << ((big - file.n) as usize);
+                let want = BigInt::from(tt.count()) * &scale;
+                if d.rc() != want { out.fail("count", &file.text(), &format!("rc() -t {big}"), &d.rc().to_string(), &want.to_string()); }
+                let s = guarded(|| d.handle_stream_msg("count")).unwrap_or_else(|e| format!("panic: {e}"));
+                if s != want.to_string() { out.fail("stream-count", &file.text(), &format!("count -t {big}"), &s, &want.to_string()); }
+                // a literal of a mentioned and of an unmentioned feature
+                let q = vec![1i32, -(big as i32)];
+                let wq: BigInt = BigInt::from(tt.count_with(&[1])) * &scale / BigInt::from(2);
+                let got = guarded(|| d.execute_query(&q)).map(|x| x.to_string()).unwrap_or_else(|e| format!("panic: {e}"));
+                if got != wq.to_string() { out.fail("count", &file.text(), &format!("count {:?} -t {big}", q), &got, &wq.to_string()); }
+            }
+        }
+    }
     lexical_variants(a, &mut out, &mut rng);
     corpus_c01(a, &mut out);
     crate::cli_props::cli_pass(a, &mut out, &mut rng, &["count", "count-stdin"]);
